@@ -166,6 +166,8 @@ type H struct {
 	nestedSeen map[string]bool
 	roProbes   int
 	nparts     int
+	nlists     int
+	nptrs      int
 }
 
 func (h *H) arena() *arena { return &arena{r: h.r, force: h.forceSpare} }
@@ -459,7 +461,7 @@ func main() {
 	dir, seed, thorough := cases.Args()
 	r := cq.NewRNG(seed)
 	s := cases.New("C10", dir, "LW.Corr.C10",
-		"guard-byte harness: every slice handed to the implementation is a window of a patterned backing buffer with 0..8 guard bytes in front, spare capacity {0, 1..4, 0..31} and 0..4 guard bytes behind. Decode: valid data frames (4 MTypes x FOpts 0..15 x FPort absent/0/n x FRMPayload lengths incl. 0,1,15,16,17,241,242), join/rejoin/proprietary frames, truncations and random bytes, then the caller overwrites the buffer. Exported EncryptFRMPayload lengths 0..64 exhaustively x spare capacity classes + long payloads; EncryptFOpts lengths 0..17; DecryptJoinAcceptPayload 12/28(+MIC) byte forms and malformed lengths; Aliasing probes (decode from a private buffer, buffer unchanged, invert the buffer, value unchanged) of every exported UnmarshalBinary / UnmarshalText / Scan of the root package (FHDR and MACPayload with FOpts 0/1/5/15 x FPort absent/present x FRMPayload absent/present also against the heap model) and of the application-layer payloads, Command, Commands. MarshalBinary / MIC validate+set / frame-level encrypt+decrypt of frames whose DataPayload / proprietary payload bytes live in guarded windows, output overwritten incl. capacity; the same on hand-built frames whose FOpts / FRMPayload lists have 2..4 entries mixing DataPayload windows, built-in and proprietary MAC commands; reuse: every payload decoder of the root package into a used vs. a fresh value (all built-in kinds, ChMask, CFList payloads, JoinAccept 12 after 28, FHDR/MACPayload with and without FOpts/FPort/FRMPayload, MACCommand, PHYPayload); histories (no hidden shared state): a population of live values - decoded frames, frames after EncryptFOpts/DecryptFOpts/EncryptFRMPayload/DecryptFRMPayload, decoded MAC commands (built-in and registered proprietary CIDs, 2..3 commands of ONE CID in one FOpts/FRMPayload stream, then single commands of that CID), marshalled outputs - with the text each printed as when produced; fixed opening orders (encrypt A; encrypt+decrypt B; re-marshal A) then 140 random steps interleaved with internal/noise; after every call 4 members are re-printed, at the end all; payload objects of decoded commands and of GetMACPayloadAndSize must be pairwise distinct pointers; part outputs: for decoded data / join-accept / join-request / rejoin / proprietary frames (also after DecodeFOptsToMACCommands, DecryptFRMPayload, DecryptJoinAcceptPayload) the output of every part's MarshalBinary (MACPayload field, FHDR, FOpts / FRMPayload elements, command payloads, CFList and its payload, join payload fields, identifiers) is overwritten over its whole capacity: the frame prints and re-encodes the same; DataPayload / ProprietaryMACCommandPayload.MarshalBinary on guarded windows against the heap model; AES128Key / EUI64 / DevAddr / NetID.UnmarshalBinary with the input at every offset -n..n of the receiver inside one array (n = its size; quick tier: a subset for the two long types) against the heap model; read-only inputs: every probe input that decodes is decoded once more from a PROT_READ page (also the stream decoders over every built-in command of both directions): a write, even one undone before returning, faults; nested caller memory: join-accepts whose CFList.Payload is a raw *DataPayload (15 / 6 / 0 bytes) or a foreign Payload, frames whose MACPayload is raw / foreign, data frames whose FOpts / FRMPayload mix raw, foreign and proprietary-command elements, a MACCommand with a proprietary payload - all byte slices in guarded windows with spare capacity - through CFList / JoinAcceptPayload / MACPayload / FHDR / PHYPayload.MarshalBinary, MarshalText, Set/Validate join + data MIC, EncryptJoinAcceptPayload, EncryptFRMPayload, EncryptFOpts: buffers unchanged incl. capacity, output shares no memory, overwriting the output changes nothing; kept copies: a struct copy (kept := *v) of every receiver, taken after the application touched it (32-bit FCnt restored, FOpts decoded) and before the next input is decoded into it, must print unchanged afterwards (root decoders, application-layer payloads / Command / Commands, a long-lived PHYPayload receiver chained through the history, slices and objects returned by band objects before later mutations); concurrent smoke: 8 goroutines repeating ~70 recorded tasks (on own values, and on the SAME shared input bytes) for 0.5 s while one goroutine registers proprietary CIDs 131..191, results compared with the sequential ones, progress-based hang detection; bands: two instances per band, random AddChannel/Disable/Enable history on one, snapshot of the other. Non-trivial = the call succeeded.")
+		"guard-byte harness: every slice handed to the implementation is a window of a patterned backing buffer with 0..8 guard bytes in front, spare capacity {0, 1..4, 0..31} and 0..4 guard bytes behind. Decode: valid data frames (4 MTypes x FOpts 0..15 x FPort absent/0/n x FRMPayload lengths incl. 0,1,15,16,17,241,242), join/rejoin/proprietary frames, truncations and random bytes, then the caller overwrites the buffer. Exported EncryptFRMPayload lengths 0..64 exhaustively x spare capacity classes + long payloads; EncryptFOpts lengths 0..17; DecryptJoinAcceptPayload 12/28(+MIC) byte forms and malformed lengths; Aliasing probes (decode from a private buffer, buffer unchanged, invert the buffer, value unchanged) of every exported UnmarshalBinary / UnmarshalText / Scan of the root package (FHDR and MACPayload with FOpts 0/1/5/15 x FPort absent/present x FRMPayload absent/present also against the heap model) and of the application-layer payloads, Command, Commands. MarshalBinary / MIC validate+set / frame-level encrypt+decrypt of frames whose DataPayload / proprietary payload bytes live in guarded windows, output overwritten incl. capacity; the same on hand-built frames whose FOpts / FRMPayload lists have 2..4 entries mixing DataPayload windows, built-in and proprietary MAC commands; reuse: every payload decoder of the root package into a used vs. a fresh value (all built-in kinds, ChMask, CFList payloads, JoinAccept 12 after 28, FHDR/MACPayload with and without FOpts/FPort/FRMPayload, MACCommand, PHYPayload); histories (no hidden shared state): a population of live values - decoded frames, frames after EncryptFOpts/DecryptFOpts/EncryptFRMPayload/DecryptFRMPayload, decoded MAC commands (built-in and registered proprietary CIDs, 2..3 commands of ONE CID in one FOpts/FRMPayload stream, then single commands of that CID), marshalled outputs - with the text each printed as when produced; fixed opening orders (encrypt A; encrypt+decrypt B; re-marshal A) then 140 random steps interleaved with internal/noise; after every call 4 members are re-printed, at the end all; payload objects of decoded commands and of GetMACPayloadAndSize must be pairwise distinct pointers; part outputs: for decoded data / join-accept / join-request / rejoin / proprietary frames (also after DecodeFOptsToMACCommands, DecryptFRMPayload, DecryptJoinAcceptPayload) the output of every part's MarshalBinary (MACPayload field, FHDR, FOpts / FRMPayload elements, command payloads, CFList and its payload, join payload fields, identifiers) is overwritten over its whole capacity: the frame prints and re-encodes the same; DataPayload / ProprietaryMACCommandPayload.MarshalBinary on guarded windows against the heap model; AES128Key / EUI64 / DevAddr / NetID.UnmarshalBinary with the input at every offset -n..n of the receiver inside one array (n = its size: all four types, every offset, in both tiers) against the heap model; shared lists: one []Payload list (FRMPayload / FOpts, with and without spare capacity) in two frames, or a struct copy of a decoded MACPayload, then EncryptFRMPayload / DecryptFRMPayload / DecodeFRMPayloadToMACCommands / EncryptFOpts / DecryptFOpts / DecodeFOptsToMACCommands on one: the other keeps its element pointers, order and deep print; pointer fields: after decoding (MACPayload / PHYPayload with every FPort value, every application-layer payload on all-zero / small-number / random inputs) every settable pointer-to-integer field of one decoded value is written through: an earlier value decoded from the same bytes and a later decode are unchanged; read-only inputs: every probe input that decodes is decoded once more from a PROT_READ page (also the stream decoders over every built-in command of both directions): a write, even one undone before returning, faults; nested caller memory: join-accepts whose CFList.Payload is a raw *DataPayload (15 / 6 / 0 bytes) or a foreign Payload, frames whose MACPayload is raw / foreign, data frames whose FOpts / FRMPayload mix raw, foreign and proprietary-command elements, a MACCommand with a proprietary payload - all byte slices in guarded windows with spare capacity - through CFList / JoinAcceptPayload / MACPayload / FHDR / PHYPayload.MarshalBinary, MarshalText, Set/Validate join + data MIC, EncryptJoinAcceptPayload, EncryptFRMPayload, EncryptFOpts: buffers unchanged incl. capacity, output shares no memory, overwriting the output changes nothing; kept copies: a struct copy (kept := *v) of every receiver, taken after the application touched it (32-bit FCnt restored, FOpts decoded) and before the next input is decoded into it, must print unchanged afterwards (root decoders, application-layer payloads / Command / Commands, a long-lived PHYPayload receiver chained through the history, slices and objects returned by band objects before later mutations); concurrent smoke: 8 goroutines repeating ~70 recorded tasks (on own values, and on the SAME shared input bytes) for 0.5 s while one goroutine registers proprietary CIDs 131..191, results compared with the sequential ones, progress-based hang detection; bands: two instances per band, random AddChannel/Disable/Enable history on one, snapshot of the other. Non-trivial = the call succeeded.")
 	s.ShardSize = 120
 	s.Watchdog(3 * time.Second) // a call that does not return becomes the failing input hang:<what>
 	h := &H{s: s, r: r, forceSpare: -1}
@@ -595,6 +597,10 @@ func main() {
 
 	// ---- encoded output of every part of a frame; identifier decoders with overlapping input ----
 	h.elements(mult)
+
+	// ---- the caller's []Payload lists; pointer fields of decoded values ----
+	h.lists(mult)
+	h.pointers(mult)
 
 	// ---- caller memory behind nested interface-typed fields ----
 	h.nested(mult)
